@@ -734,7 +734,13 @@ func (s *Server) handleRedisWrite(cmdName string, kvn *node.KVNode,
 	case nil:
 		conn.WriteNull()
 	case []byte:
-		conn.WriteBulk(rv)
+		// a nil slice (e.g. a pop that found the list empty when it was applied)
+		// is "no value", not an empty string
+		if rv == nil {
+			conn.WriteNull()
+		} else {
+			conn.WriteBulk(rv)
+		}
 	case [][]byte:
 		conn.WriteArray(len(rv))
 		for _, d := range rv {
